@@ -92,3 +92,11 @@ def run_cases(lines, asan=False, jobs=16, exe=None):
 
 
 run_cases.last_stderr = []
+
+
+def run_memcheck(line, exe=None, timeout=120):
+    """one case under valgrind memcheck on the real (non-instrumented) build: (memory errors reported?, stdout, report tail)"""
+    exe = exe or build.build(asan=False)
+    p = subprocess.run(["valgrind", "-q", "--error-exitcode=99", exe, "--nofork"], input=(line + "\n").encode(),
+                       stdout=subprocess.PIPE, stderr=subprocess.PIPE, timeout=timeout)
+    return p.returncode == 99 or p.returncode < 0, p.stdout.decode("utf-8", "replace"), p.stderr.decode("utf-8", "replace")[-1500:]
